@@ -843,6 +843,18 @@ fn osu_c13<const LAZER: bool, const NMAX: u32, const LO: usize, const HI: usize>
 
 #[kani::proof]
 #[kani::unwind(5)]
+pub fn c13_osu_stable_n4() {
+    osu_c13::<false, 4, 0, 2>();
+}
+
+#[kani::proof]
+#[kani::unwind(5)]
+pub fn c13_osu_lazer_n3() {
+    osu_c13::<true, 3, 0, 2>();
+}
+
+#[kani::proof]
+#[kani::unwind(5)]
 pub fn c13_osu_stable_q() {
     osu_c13::<false, 5, 0, 2>();
 }
@@ -854,7 +866,7 @@ pub fn c13_osu_lazer_q() {
 }
 
 verif_replay_table!(verif_replay_c12;
-    c13_osu_stable_q, c13_osu_lazer_q,
+    c13_osu_stable_q, c13_osu_lazer_q, c13_osu_stable_n4, c13_osu_lazer_n3,
     c12_osu_noacc_full, c12_taiko_noacc_full, c12_catch_noacc_full, c12_mania_noacc_full,
     c12_mania_acc_given_all, c12_mania_acc_missing_n320, c12_mania_acc_missing_n300,
     c12_mania_acc_missing_n200, c12_mania_acc_missing_n100, c12_mania_acc_missing_n50,
